@@ -596,7 +596,10 @@ def _work(chunk):
     n = 0
     outcomes = set()
     for cfg in chunk:
-        v = run_config(cfg)
+        try:
+            v = run_config(cfg)
+        except Exception as e:   # noqa: never on the unchanged tree; reported, not a harness crash
+            v = ("unexpected-behaviour", cfg[0], "", dict(cfg=cfg, error="%s: %s" % (type(e).__name__, str(e)[:200])))
         n += 1
         if v:
             out.append((v, cfg))
